@@ -37,6 +37,7 @@ SCRIPTS = {
                     "vnacal_new_build_equation_terms.c", "vnacal_new_parameter.c", "vnacal_parameter.c",
                     "vnacal_layout.c", "vnacal_error.c", "vnacal_calibration.c", "vnacal_rfi.c", "vnacal_type_to_name.c",
                     "vnacommon_mrdivide.c", "vnacommon_lu.c", "vnacal_new_set_m_error.c", "vnacommon_spline.c"], 0, 18),
+    "property": ("h_script_property", ["-DS_PROPERTY"], ["vnaproperty.c", "vnacal_layout.c"], 0, 14),
     "addcal": ("h_script_addcal", ["-DS_ADDCAL", "-DVC_CAL_ALLOC=1", "-DVERIF_CUT_rfi_after_search=__CPROVER_assume(0)"],
                ["vnacal_calibration.c", "vnacal_free.c", "vnacal_find_calibration.c", "vnacal_parameter.c",
                 "vnacal_error.c", "vnacal_layout.c", "vnacal_rfi.c"], 0, 12),
@@ -60,7 +61,7 @@ def measure_k(name):
         os.path.join(V.VERIF, "harness", H), os.path.join(V.VERIF, "include", "verif_native.c"),
         os.path.join(V.VERIF, "stubs", "verif_err.c"), os.path.join(V.VERIF, "stubs", "verif_alloc.c")] + \
         [s if os.path.isabs(s) else os.path.join(V.SRC, s) for s in srcs] + \
-        [os.path.join(V.SRC, x) for x in ("vnaerr_verror.c",)] + ["-lm", "-o", exe]
+        [os.path.join(V.SRC, x) for x in ("vnaerr_verror.c",)] + ["-lm", "-lyaml", "-o", exe]
     p = subprocess.run(cc, stdout=subprocess.PIPE, stderr=subprocess.PIPE, text=True)
     if p.returncode != 0:
         print("INFRA: cannot build native K measurement for %s: %s" % (name, p.stderr[-600:]))
